@@ -351,7 +351,41 @@ def r5(ctx):
     ctx.floor(R, 3)
 
 
+def r6(ctx):
+    R = "C11-R6"
+    ctx.rule(R, "the deadline is the one the user configured: Config::duration is written only by Builder::simulation_duration (and Config's "
+                "Default) - nothing between the builder and Sim::step adjusts it (rounding it up onto the tick grid grants one more step: the "
+                "strict `elapsed > duration` test no longer fires at the end of the step that crosses the configured duration)")
+    F = "turmoil::config::Config::duration"
+    n = 0
+    bad = []
+    for b in sorted(ctx.w.bodies.values(), key=lambda x: x.id):
+        if b.crate != "turmoil":
+            continue
+        root = b
+        while root.parent and root.parent in ctx.w.bodies:
+            root = ctx.w.bodies[root.parent]
+        sites = [s2["s"] for bb, i, s2 in b.all_stmts() if i != "term" and place_last_field(s2["p"]) == F and s2["p"].get("p")]
+        sites += [t["s"] for bb, t in b.calls(re.compile(r"(AddAssign|SubAssign|MulAssign)>::\w+_assign$|^std::mem::(replace|swap|take)$"))
+                  if t["args"] and F in _flds(b, t["args"][0])]
+        for st in sites:
+            n += 1
+            ok = root.id in ("turmoil::builder::Builder::simulation_duration", "<turmoil::config::Config as std::default::Default>::default")
+            if not ok:
+                bad.append((root.id, st))
+    ctx.inst(R, "duration:written-only-by-its-setter", n > 0 and not bad, bad[0][1] if bad else "", "the configured duration reaches Sim::step unchanged" if n and not bad else
+             (f"`{bad[0][0]}` rewrites Config::duration: the run is granted a deadline other than the configured one - a client that finishes in the step after the configured duration "
+              "was crossed makes run() return Ok instead of the duration error" if bad else "no write of Config::duration found: re-derive"))
+    ctx.floor(R, 1)
+
+
+def _flds(b, op):
+    o = deref_origin(b, op)
+    return root_place(b, o["p"])[1] if o["k"] == "place" else []
+
+
 def run(ctx):
+    r6(ctx)
     r5(ctx)
     r1(ctx)
     r2(ctx)
